@@ -43,6 +43,22 @@ let handle toks =
   | ["kb"; e; kbu] -> string_of_q (kb_engine (engine_of_string e) (q_of_string kbu))
   | ["aselibkb"] -> string_of_q ase_lib_kB
   | ["usezm"; e; zm] -> string_of_bool_ (use_zm (engine_of_string e) (opt_of_string bool_of_string_ zm))
+  | ["handed"; ka; km; vt; mv; s] ->
+    (* call sites: settings "k:v,k:v" (interned integers); move "sh" | "wf:<usable 0/1>:<n_jumps>";
+       answer: the dictionaries handed to modify_velocities, ";"-separated, or "KEYERROR" *)
+    let pair x = match String.split_on_char ':' x with
+      | [k; v] -> (z_of_string k, z_of_string v) | _ -> failwith "bad pair" in
+    let st = if s = "-" then [] else List.map pair (String.split_on_char ',' s) in
+    let move = match String.split_on_char ':' mv with
+      | ["sh"] -> MShoot
+      | ["wf"; u; n] -> MWireFencing (bool_of_string_ u, nat_of_string n)
+      | _ -> failwith "bad move" in
+    (match handed (z_of_string ka) (z_of_string km) (z_of_string vt) move st with
+     | None -> "KEYERROR"
+     | Some hs ->
+       if hs = [] then "-" else
+       String.concat ";" (List.map (fun h ->
+         if h = [] then "-" else String.concat "," (List.map (fun (k, v) -> string_of_z k ^ ":" ^ string_of_z v) h)) hs))
   | _ -> "ERR bad command"
 
 let () = main_loop handle
